@@ -54,6 +54,8 @@ type Config struct {
 	Bound          int            // maximal number of deviations
 	Shard, Shards  int            // this process handles root children j with j%Shards==Shard
 	Deadline       time.Time      // zero: none
+	Bonus          int            // further levels (Bound+1 .. Bound+Bonus) explored while BonusDeadline allows; cutting them short is not a time-out
+	BonusDeadline  time.Time      // zero: no bonus levels
 	ValidateEvery  int            // replay every n-th execution twice (0: never)
 	MaxSteps       int            // per execution
 	ExpectCrash    bool           // scenario handles crashes itself
@@ -92,6 +94,7 @@ type Stats struct {
 	PerBound       []int          `json:"per_bound"`       // executions with exactly b deviations
 	Exhaustive     bool           `json:"exhaustive"`      // the whole tree was finished (no alternative pruned by the bound)
 	TimedOut       bool           `json:"timed_out"`
+	BonusCut       bool           `json:"bonus_cut"`       // a level beyond the requested bound was started and cut short by the bonus deadline
 	EngineErrors   []string       `json:"engine_errors"`
 	MaxPoints      int            `json:"max_points"`
 	MaxThreads     int            `json:"max_threads"`
@@ -278,9 +281,13 @@ func (e *explorer) walk(s Schedule, level int, mine bool) {
 	if e.stop {
 		return
 	}
-	if !e.cfg.Deadline.IsZero() && time.Now().After(e.cfg.Deadline) {
+	if dl := e.deadlineFor(level); !dl.IsZero() && time.Now().After(dl) {
 		e.stop = true
-		e.st.TimedOut = true
+		if level > e.cfg.Bound {
+			e.st.BonusCut = true
+		} else {
+			e.st.TimedOut = true
+		}
 		return
 	}
 	r := e.run(s)
@@ -331,6 +338,15 @@ func (e *explorer) walk(s Schedule, level int, mine bool) {
 	}
 }
 
+// deadlineFor returns the deadline that applies to a level: levels beyond the
+// requested bound run on the (earlier) bonus deadline.
+func (e *explorer) deadlineFor(level int) time.Time {
+	if level > e.cfg.Bound {
+		return e.cfg.BonusDeadline
+	}
+	return e.cfg.Deadline
+}
+
 // Explore runs the exploration of body.
 func Explore(body func(), cfg Config) *Stats {
 	if cfg.Shards == 0 {
@@ -339,7 +355,14 @@ func Explore(body func(), cfg Config) *Stats {
 	start := time.Now()
 	st := &Stats{Outcomes: map[string]int{}, Flags: map[string]int{}, Nontrivial: map[string]int{}, CompletedBound: -1}
 	e := &explorer{cfg: cfg, body: body, st: st, byFP: map[string]*Violation{}}
-	for level := 0; level <= cfg.Bound; level++ {
+	last := cfg.Bound
+	if cfg.Bonus > 0 && !cfg.BonusDeadline.IsZero() {
+		last += cfg.Bonus
+	}
+	for level := 0; level <= last; level++ {
+		if level > cfg.Bound && time.Now().After(cfg.BonusDeadline) {
+			break
+		}
 		e.pruned = false
 		e.kid1, e.kid2 = 0, 0
 		e.walk(nil, level, cfg.Shard == 0)
@@ -354,7 +377,8 @@ func Explore(body func(), cfg Config) *Stats {
 			// no execution of this level had an untaken alternative: the
 			// tree is exhausted
 			st.Exhaustive = true
-			st.CompletedBound = cfg.Bound
+			// (this shard's share of) the tree is exhausted: every higher level is complete as well
+			st.CompletedBound = last
 			break
 		}
 	}
@@ -410,6 +434,7 @@ func Merge(parts []*Stats) *Stats {
 		}
 		m.Exhaustive = m.Exhaustive && p.Exhaustive
 		m.TimedOut = m.TimedOut || p.TimedOut
+		m.BonusCut = m.BonusCut || p.BonusCut
 		m.EngineErrors = append(m.EngineErrors, p.EngineErrors...)
 		if p.MaxPoints > m.MaxPoints {
 			m.MaxPoints = p.MaxPoints
@@ -425,6 +450,10 @@ func Merge(parts []*Stats) *Stats {
 				m.SampleOutcome, m.SampleSchedule = p.SampleOutcome, p.SampleSchedule
 			}
 		}
+	}
+	if m.Exhaustive && len(m.PerBound) > 0 {
+		// the whole tree was walked: the deepest execution has len(PerBound)-1 deviations
+		m.CompletedBound = len(m.PerBound) - 1
 	}
 	sort.Slice(m.Violations, func(i, j int) bool { return m.Violations[i].Fingerprint < m.Violations[j].Fingerprint })
 	return m
